@@ -134,11 +134,15 @@ class W:
 
     def __init__(self, ctx: Ctx, rng: _Rng) -> None:
         self.ctx, self.ch, self.rng = ctx, ctx.ch, rng
-        kind = ctx.cfg.get("curve") or ctx.ch.weighted([("toy", 6), ("secp256k1", 2), ("catalogued", 2)], "curve.kind")
+        kind = ctx.cfg.get("curve") or ctx.ch.weighted([("toy", 6), ("secp256k1", 2), ("catalogued", 2), ("kin", 1)], "curve.kind")
         if kind == "toy":
             ec, ref, t = gc.toy_curve(ctx)
             self.label = f"toy:p={t[0]},a={t[1]},b={t[2]},G={t[3]},n={t[4]},h={t[5]}"
             _weak_curve_verdict(ctx, t)
+        elif kind == "kin":
+            # caller-defined, full size, over a catalogued curve's field and not that curve
+            ec, ref, self.label = gc.kin_curve(ctx, int(ctx.cfg.get("max_bits", 521)))
+            ctx.probe("kin-curve:" + self.label.split(":")[0])
         else:
             names = [k for k in sorted(CURVES) if CURVES[k].p.bit_length() <= int(ctx.cfg.get("max_bits", 521))]
             name = "secp256k1" if kind == "secp256k1" else ctx.ch.pick(names, "curve.name")
